@@ -88,8 +88,10 @@ fn compare_with_model_string(ctx: &mut Ctx, case: &Value, alg: &str, real_string
     let a = match dec { Some(a) if (a.len() == 2 || a.len() == 3) && a[0].is_string() && (a.len() == 2 || a[1].is_string()) => a, _ => return };
     let req = json!({"op": "disc_string", "alg": alg, "salt": a[0], "key": if a.len() == 3 { a[1].clone() } else { Value::Null }, "value": a[a.len() - 1]});
     let r = ctx.driver.ask(&req);
-    if r["roundtrip"] != json!(true) {
-        ctx.report.diff("internal", "Exec.codec", "Exec.codec:parse-of-render-differs", case, json!({"array": a}));
+    if r["roundtrip"] != json!(true) || r["model_reader"] != json!(true) {
+        // the driver's general JSON reader, or the model's verified reader (`JText.parseAll`), did not read back
+        // what the model's printer (`JText.render`) wrote for this array
+        ctx.report.diff("internal", "Exec.codec", "Exec.codec:parse-of-render-differs", case, json!({"array": a, "general_reader": r["roundtrip"], "model_reader": r["model_reader"]}));
     }
     if r["s"].as_str() == Some(real_string) {
         ctx.report.bump("disclosure-text:byte-for-byte-as-model");
